@@ -111,7 +111,18 @@ func (s *Sim) Ctx() sdk.Ctx {
 		WithBlockStore(s.App.BlockStore())
 }
 
-func amt(c sdk.Coins) int64 { return c.AmountOf(sdk.DefaultStakeDenom).Int64() }
+func amt(c sdk.Coins) int64 { return small(c.AmountOf(sdk.DefaultStakeDenom)) }
+
+// OutOfRange is what the projection shows for an amount the specification's 32-bit integers cannot hold
+// (it never equals an amount the specification computes).
+const OutOfRange = -999999999
+
+func small(v sdk.BigInt) int64 {
+	if !v.IsInt64() || v.Int64() > 1<<31-1 || v.Int64() < -(1<<31-1) {
+		return OutOfRange
+	}
+	return v.Int64()
+}
 
 func canonical(c sdk.Coins) bool {
 	for i, x := range c {
@@ -140,6 +151,13 @@ func (s *Sim) ProjectCtx(ctx sdk.Ctx) State {
 	for _, acc := range ak.GetAllAccounts(ctx) {
 		n := s.Name(acc.GetAddress())
 		st.Bal[n] = amt(acc.GetCoins())
+		if len(s.Cfg.BigBase) > 0 {
+			for i := range s.Keys {
+				if s.Addr(i).Equals(acc.GetAddress()) {
+					st.Bal[n] = small(acc.GetCoins().AmountOf(sdk.DefaultStakeDenom).Sub(bigBaseOf(s.Cfg, i)))
+				}
+			}
+		}
 		if !canonical(acc.GetCoins()) {
 			st.BadCoins = append(st.BadCoins, n)
 		}
@@ -148,6 +166,13 @@ func (s *Sim) ProjectCtx(ctx sdk.Ctx) State {
 		}
 	}
 	st.Supply = amt(ak.GetSupply(ctx).GetTotal())
+	if len(s.Cfg.BigBase) > 0 {
+		sup := ak.GetSupply(ctx).GetTotal().AmountOf(sdk.DefaultStakeDenom)
+		for i := range s.Cfg.BigBase {
+			sup = sup.Sub(bigBaseOf(s.Cfg, i))
+		}
+		st.Supply = small(sup)
+	}
 	// --- nodes: records
 	for _, v := range nk.GetAllValidators(ctx) {
 		vs := ValState{Status: int(v.Status), Jailed: v.Jailed, Tokens: v.StakedTokens.Int64(), Chains: append([]string{}, v.Chains...),
